@@ -6,6 +6,8 @@
 #include <fstream>
 #include <iostream>
 #include <unistd.h>
+#include <glob.h>
+#include <cstring>
 
 using namespace sim;
 
@@ -98,17 +100,28 @@ static int cmd_run(int argc, char** argv) {
   start_solo_server();
   std::map<std::string, std::string> expmap;
   if (!expect.empty()) {
-    std::ifstream f(expect);
-    std::string line;
-    while (std::getline(f, line)) {
-      auto bar = line.rfind('|');
-      if (bar != std::string::npos)
-        expmap[line.substr(0, bar)] = line.substr(bar + 1);
+    // one digest file per reference worker ("<prefix>.w<k>"): concurrent appends to one file would interleave lines
+    glob_t gl;
+    memset(&gl, 0, sizeof gl);
+    if (glob((expect + ".w*").c_str(), 0, nullptr, &gl) == 0)
+      for (size_t i = 0; i < gl.gl_pathc; i++) {
+        std::ifstream f(gl.gl_pathv[i]);
+        std::string line;
+        while (std::getline(f, line)) {
+          auto bar = line.rfind('|');
+          if (bar != std::string::npos && line.size() - bar - 1 == 16)
+            expmap[line.substr(0, bar)] = line.substr(bar + 1);
+        }
+      }
+    globfree(&gl);
+    if (expmap.empty()) {
+      printf("MACH run=0 MACHINERY.no_reference_digests: %s.w* is empty or missing\n", expect.c_str());
+      return 2;
     }
   }
   std::ofstream dg;
   if (!digests.empty())
-    dg.open(digests, std::ios::app);
+    dg.open(digests + ".w" + std::to_string(worker), std::ios::app);
   Stats stats;
   uint64_t nruns = 0, nops = 0, nskipped = 0, perms = 0, yields = 0, libcalls = 0, nviol = 0, nmach = 0;
   long switches = 0;
